@@ -940,24 +940,47 @@ func (c *wsConn) autoResetReader(reader io.Reader) io.Reader {
 	return &deadlineResetReader{
 		r:     reader,
 		reset: c.resetReadDeadline,
+		alive: c.readProgress,
+		every: c.readDeadlineResetInterval(),
 
 		lastReset: time.Now(),
+	}
+}
+
+// readDeadlineResetInterval is how often a slow read extends the read deadline: it has to
+// happen before the deadline expires, also when the timeout is shorter than the default interval.
+func (c *wsConn) readDeadlineResetInterval() time.Duration {
+	if c.timeout > 0 && c.timeout/2 < onReadDeadlineResetInterval {
+		return c.timeout / 2
+	}
+	return onReadDeadlineResetInterval
+}
+
+// readProgress tells the connection loop that a frame keeps arriving: that is activity on the
+// connection, without it the loop's inactivity timer closes the connection mid-frame.
+func (c *wsConn) readProgress() {
+	select {
+	case c.pongs <- struct{}{}:
+	default:
 	}
 }
 
 type deadlineResetReader struct {
 	r     io.Reader
 	reset func()
+	alive func()
+	every time.Duration
 
 	lastReset time.Time
 }
 
 func (r *deadlineResetReader) Read(p []byte) (n int, err error) {
 	n, err = r.r.Read(p)
-	if time.Since(r.lastReset) > onReadDeadlineResetInterval {
+	if time.Since(r.lastReset) > r.every {
 		log.Warnw("slow/large read, resetting deadline while reading the frame", "since", time.Since(r.lastReset), "n", n, "err", err, "p", len(p))
 
 		r.reset()
+		r.alive()
 		r.lastReset = time.Now()
 	}
 	return
